@@ -173,6 +173,14 @@ func sendDiscipline(f *ast.File) (bool, string) {
 	return ok, why
 }
 
+func mustParse(c *trlib.Ctx, rel string) *ast.File {
+	f, err := c.Parse(rel)
+	if err != nil {
+		return &ast.File{}
+	}
+	return f
+}
+
 func gen(c *trlib.Ctx) error {
 	var facts []fact
 	add := func(name, doc string, val bool, why string) { facts = append(facts, fact{name, doc, val, why}) }
@@ -315,6 +323,31 @@ func gen(c *trlib.Ctx) error {
 		})
 	}
 	add("queue_length_atomic", "queue.go: queueLength is changed through sync/atomic only (C20)", atomicOnly, whyLen)
+
+	// 10. a negotiated heartbeat always arms the dead-peer timeout
+	cm, err := c.Parse("server/connectionMethods.go")
+	if err != nil {
+		return err
+	}
+	armed, whyHb := false, "no `if method.Heartbeat > 0` block assigning heartbeatTimeout at its top level in connectionTuneOk"
+	if to := trlib.FuncDecl(cm, "Channel.connectionTuneOk"); to != nil {
+		ast.Inspect(to.Body, func(n ast.Node) bool {
+			ifs, isIf := n.(*ast.IfStmt)
+			if !isIf || !strings.Contains(trlib.ExprString(ifs.Cond), "Heartbeat > 0") {
+				return true
+			}
+			for _, st := range ifs.Body.List {
+				if as, isA := st.(*ast.AssignStmt); isA && len(as.Lhs) == 1 && strings.HasSuffix(trlib.ExprString(as.Lhs[0]), "heartbeatTimeout") {
+					armed = true
+				}
+			}
+			return true
+		})
+	}
+	add("heartbeat_always_arms_timeout", "connectionTuneOk: whenever a heartbeat is negotiated the read timeout is set (C14: dead peers are detected)", armed, whyHb)
+	hi := trlib.FuncDecl(mustParse(c, "server/connection.go"), "Connection.handleIncoming")
+	deadline := hi != nil && suffixIndex(callsInOrder(hi), "SetReadDeadline") >= 0
+	add("reader_sets_read_deadline", "handleIncoming renews the read deadline from heartbeatTimeout (C14)", deadline, "no SetReadDeadline call in handleIncoming")
 
 	// emit
 	sort.SliceStable(facts, func(i, j int) bool { return false })
